@@ -164,6 +164,7 @@ enum ParentKind {
   P_CTX_ROOT,         // explicit Context without a span, marked kIsRootSpanKey
   P_CTX_CURRENT_ROOT, // the current runtime Context (holds the active span, if any) marked kIsRootSpanKey
   P_CTX_INVALID_SPAN, // explicit Context holding a span whose context is invalid
+  P_SC_LOCAL,         // explicit SpanContext of the most recent span of the program (local, not remote); needs a span
   P_CTX_SPAN_BASE     // + i: explicit Context holding the i-th most recent span of the program
 };
 
@@ -210,8 +211,9 @@ struct Exec {
 
   std::vector<Op> enabled() const {
     std::vector<Op> ops;
-    for (int p = P_NONE; p < P_CTX_SPAN_BASE; ++p) ops.push_back(Op{0, p});
     int n = (int)spans.size();
+    for (int p = P_NONE; p < P_CTX_SPAN_BASE; ++p)
+      if (p != P_SC_LOCAL || n > 0) ops.push_back(Op{0, p});
     for (int i = 0; i < 3 && i < n; ++i) ops.push_back(Op{0, P_CTX_SPAN_BASE + i});
     for (int i = 0; i < 3 && i < n; ++i) ops.push_back(Op{1, n - 1 - i});
     if (!stack.scopes.empty()) ops.push_back(Op{2, 0});
@@ -266,6 +268,10 @@ struct Exec {
       permitted.push_back(tr::SpanContext::GetInvalid());
       if (active.IsValid()) permitted.push_back(active);
       how = "Context(current+root)";
+    } else if (pk == P_SC_LOCAL) {
+      opts.parent = spans.back().ctx;
+      permitted.push_back(spans.back().ctx);
+      how = vf::sfmt("SpanContext(of span#%zu)", spans.size() - 1);
     } else if (pk == P_CTX_INVALID_SPAN) {
       ctxns::Context cx;
       opts.parent = cx.SetValue(tr::kSpanKey, nostd::shared_ptr<tr::Span>(new tr::DefaultSpan(tr::SpanContext::GetInvalid())));
